@@ -49,7 +49,7 @@ func (env *Env) checkTimeoutLayer(layer int, apps []*App) string {
 	var want []int64
 	for _, a := range apps {
 		if a.Out == nil {
-			if env.Completed {
+			if env.Completed && !env.hasCancelSourceAbove(layer) {
 				return fmt.Sprintf("timeout application %d never returned", a.N)
 			}
 			continue
@@ -156,6 +156,9 @@ func matchesAny(cs []Cond, v int, err error) bool {
 func (env *Env) checkHedgeLayer(layer int, apps []*App) string {
 	s := env.Stack[layer]
 	D := int64(s.HDelay)
+	if env.hedgeAbove(layer) {
+		return "" // several applications of this layer overlap: their attempts cannot be told apart in the log
+	}
 	cancellable := func(r *common.PolicyResult[int]) bool {
 		if r == nil {
 			return false
